@@ -416,3 +416,145 @@ def run_cap(run, P):
                           'session is never closed' % alen)
     elif not run.fixture_mode:
         run.require(False, 'anchor function coap_ws_rd_http_header() not found')
+
+
+# ---------------------------------------------------------------------------------------------------------------
+READ_FIELDS = ('l_read',)
+READ_FUNCS = ('recv', 'read', 'recvfrom', 'coap_socket_read', 'coap_netif_strm_read', 'gnutls_record_recv')
+
+
+def run_cursor(run, P, units=('coap_net.c', 'coap_ws.c', 'coap_tcp.c', 'coap_io.c', 'coap_netif.c')):
+    """R-STREAM-ADV (cursor): a parse cursor into a receive buffer is re-derived after every refill of that buffer.
+    refill  = a call through a layer read slot (l_read) or a socket read that is handed buffer B as destination;
+    cursor  = a local pointer assigned from B (or B + k);
+    a cursor that was advanced since it was derived is stale after a refill until it is assigned from B again (one that
+    still points at the start of B stays valid); dereferencing a stale cursor or
+    handing it to a function (memcpy source ...) parses bytes of an earlier read -- only when one read fills the buffer
+    exactly and more data is waiting, i.e. under one particular segmentation."""
+    from core.prog import callee_field
+    run.rule('R-STREAM-ADV')
+    nf = 0
+    for f in sorted(P.lib_funcs(), key=lambda f: f['name']):
+        if f['unit'] not in units:
+            continue
+        name = f['name']
+        refills = []
+        for b, ev in P.events(f):
+            t = ev['e']
+            if t.get('k') == 'call' and (callee_field(t) in READ_FIELDS or t.get('fn') in READ_FUNCS) and len(t.get('a', [])) >= 2:
+                bufs = [ap(a) for a in t['a'] if ap(a) and isinstance(strip(a), dict) and (strip(a).get('p') or strip(a).get('alen'))]
+                bufs = [x for x in bufs if x and not x.startswith('v') or (x and ('>' in x or '.' in x))] or bufs
+                for x in bufs[1:2] if len(bufs) > 1 else bufs[:1]:
+                    refills.append((ev, x))
+        if not refills:
+            continue
+        bufaps = set(x for _e, x in refills)
+        cursors = {}
+        for b, ev in P.events(f):
+            t = ev['e']
+            pairs = []
+            if t.get('k') == 'asg' and t.get('op') == '=':
+                pairs.append((ap(t['l']), t['r']))
+            elif t.get('k') == 'decl':
+                for d in t['d']:
+                    if 'init' in d:
+                        pairs.append(('v%d' % d['id'], d['init']))
+            for l, r in pairs:
+                r0 = strip(r)
+                while isinstance(r0, dict) and r0.get('k') == 'bin' and r0.get('op') in ('+', '-'):
+                    r0 = strip(r0['l'])
+                if l and '.' not in l and '>' not in l and ap(r0) in bufaps:
+                    cursors.setdefault(l, set()).add(ap(r0))
+        if not cursors:
+            continue
+        nf += 1
+        run.instance('R-STREAM-ADV', '%s: cursor(s) into %d refilled buffer(s)' % (name, len(bufaps)))
+        rid = dict((id(ev), x) for ev, x in refills)
+
+        def is_rule_event(ev):
+            t = ev['e']
+            if id(ev) in rid:
+                return True
+            if t.get('k') in ('asg', 'decl'):
+                return True
+            if t.get('k') == 'call':
+                return any(ap(a) in cursors for a in t.get('a', []))
+            if t.get('k') == 'un' and t.get('op') in ('*', '++', '--') and ap(t.get('e')) in cursors:
+                return True
+            if t.get('k') in ('idx', 'sub') and ap(t.get('b')) in cursors:
+                return True
+            return False
+        keys, R = relevance(f, is_rule_event)
+
+        def stale_use(ev, env, ctx, c, how):
+            run.oblige('R-STREAM-ADV', False, '%s:cursor:%s' % (name, c))
+            run.violation('R-STREAM-ADV', name, ev['loc'], 'stale-cursor',
+                          'the parse cursor is %s after the receive buffer it points into was refilled and before it was set to the start of the buffer again: '
+                          'bytes of the previous read (or behind the buffer) are parsed instead of the new ones' % how, ctx.path())
+
+        def on_event(ev, env, ctx):
+            t = ev['e']
+            st = dict(env.ts.get('cur', ()))
+            if id(ev) in rid:
+                b0 = rid[id(ev)]
+                e = apply_generic(ev, env, R).copy()
+                for c, bs in cursors.items():
+                    # a cursor still at the start of the buffer stays valid; one that was advanced points into old data
+                    if b0 in bs and st.get(c) == 'moved':
+                        st[c] = 'stale'
+                e.ts['cur'] = tuple(sorted(st.items()))
+                return [e]
+            if t.get('k') in ('asg', 'decl'):
+                pairs = []
+                if t.get('k') == 'asg':
+                    pairs.append((ap(t['l']), t['r'], t.get('op')))
+                else:
+                    for d in t['d']:
+                        if 'init' in d:
+                            pairs.append(('v%d' % d['id'], d['init'], '='))
+                ch = False
+                for l, r, op in pairs:
+                    if l in cursors:
+                        if op == '=':
+                            r0 = strip(r)
+                            while isinstance(r0, dict) and r0.get('k') == 'bin' and r0.get('op') in ('+', '-'):
+                                r0 = strip(r0['l'])
+                            st[l] = ('fresh' if strip(r) is r0 or ap(strip(r)) in bufaps else 'moved') if ap(r0) in bufaps else None
+                            ch = True
+                        elif st.get(l) == 'stale':
+                            stale_use(ev, env, ctx, l, 'advanced')
+                            st[l] = None
+                            ch = True
+                        elif st.get(l) == 'fresh':
+                            st[l] = 'moved'
+                            ch = True
+                if ch:
+                    e = apply_generic(ev, env, R).copy()
+                    e.ts['cur'] = tuple(sorted((k, v) for k, v in st.items() if v))
+                    return [e]
+                return None
+            if t.get('k') == 'un' and t.get('op') in ('++', '--') and ap(t.get('e')) in cursors and st.get(ap(t['e'])) == 'fresh':
+                e = apply_generic(ev, env, R).copy()
+                st[ap(t['e'])] = 'moved'
+                e.ts['cur'] = tuple(sorted((k, v) for k, v in st.items() if v))
+                return [e]
+            used = None
+            if t.get('k') == 'call':
+                for a in t.get('a', []):
+                    if ap(a) in cursors and st.get(ap(a)) == 'stale':
+                        used = (ap(a), 'handed to %s()' % (t.get('fn') or 'a callee'))
+            elif t.get('k') == 'un' and ap(t.get('e')) in cursors and st.get(ap(t['e'])) == 'stale':
+                used = (ap(t['e']), 'dereferenced')
+            elif t.get('k') in ('idx', 'sub') and ap(t.get('b')) in cursors and st.get(ap(t['b'])) == 'stale':
+                used = (ap(t['b']), 'indexed')
+            if used:
+                stale_use(ev, env, ctx, used[0], used[1])
+                e = env.copy()
+                st[used[0]] = None
+                e.ts['cur'] = tuple(sorted((k, v) for k, v in st.items() if v))
+                return [apply_generic(ev, e, R)]
+            return None
+        ctx = solve(f, Env({'cur': ()}), on_event, None, keys, R, key_fn=lambda e: e.ts.get('cur'))
+        run.stats['stream_cursor_steps'] += ctx.steps
+        run.oblige('R-STREAM-ADV', True, '%s:cursor-analysed' % name)
+    run.require(nf >= 1 or run.fixture_mode, 'R-STREAM-ADV(cursor): no function with a parse cursor into a refilled receive buffer found')
